@@ -1,28 +1,18 @@
 /-
-Driver glue for the persistence components (M-FileSet ×2, M-Parts ×5, M-LayerSet) composed the
-way `Font.save` composes them.  Not part of the proved core.
+Driver glue for the persistence components (M-FileSet ×2, M-Parts ×5, M-LayerSet, M-Layer per layer)
+and the dirty flags of the whole tree, composed in `DefconModel.SubFlags` the way `Font.save`
+composes them.  Every line is parsed into a `SubFlags.Op`; the answer is what the component
+drivers printed before plus the flags of every object (`flags`).  Not part of the proved core.
 -/
 import DefconModel.Util.SExp
-import DefconModel.FileSet
-import DefconModel.Parts
-import DefconModel.LayerSet
+import DefconModel.SubFlags
 
 namespace DefconModel
 namespace Persist
 open SExp
+open SubFlags (FontF Op Prim Kind Shape Sub LayerF)
 
-structure PState where
-  images : FileSet.State := {}
-  data : FileSet.State := {}
-  parts : List (String × Parts.Part) := []      -- info groups kerning features lib
-  ls : LayerSet.State := {}
-
-def partNames : List String := ["info", "groups", "kerning", "features", "lib"]
-
-def newFont : PState :=
-  { parts := partNames.map (fun n => (n, {}))
-    ls := { layers := [("public.default", ⟨0, false⟩)], order := ["public.default"], default := some 0,
-            history := [.new "public.default", .default "public.default" none], nextLid := 1 } }
+abbrev PState := FontF
 
 def setOf (xs : List SExp) : SExp := tagged "set" xs
 
@@ -58,94 +48,145 @@ def layerErr : LayerSet.Err → SExp
   | .assertionError => err "AssertionError"
   | .merged => err "merged-directories"
 
-def fileOp (silent : Bool) (s : FileSet.State) (op : FileSet.Op) : FileSet.State × SExp :=
-  match FileSet.step silent s op with
-  | .ok s' => (s', .list [.atom "ok", encFiles s'])
-  | .error e => (s, .list [fileErr e, encFiles s])
+def errOf : SubFlags.Err → SExp
+  | .file e => fileErr e
+  | .layers e => layerErr e
+  | .glyph .keyError => err "KeyError"
+  | .noLayer => err "KeyError"
+  | .noPart => .atom "bad-op"
 
-def layerOp (st : PState) (op : LayerSet.Op) : PState × SExp :=
-  match LayerSet.step st.ls op with
-  | .ok s' => ({ st with ls := s' }, .list [.atom "ok", encLayers s'])
-  | .error e => (st, .list [layerErr e, encLayers st.ls])
+/-! ### the flags of every object -/
+
+def encSub (n : String) (d : Bool) (s : Sub) : SExp :=
+  .list [.str n, ofBool d, ofList ofBool s.contours, ofList ofBool s.components, ofList ofBool s.anchors,
+         ofList ofBool s.guidelines, ofOpt ofBool s.image, ofBool s.lib]
+
+/-- loaded glyphs that report dirty or hold something that does -/
+def encGlyphs (L : LayerF) : SExp :=
+  setOf (L.base.loaded.filterMap fun p =>
+    let sb := SubFlags.subOf L p.1
+    if p.2.2 ∨ ¬ sb.Clean then some (encSub p.1 p.2.2 sb) else none)
+
+def encLayerF (st : PState) (n : String) : SExp :=
+  match SubFlags.lidOf st n with
+  | none => .list [.str n, .atom "no-layer"]
+  | some lid =>
+    let L := SubFlags.layerOf st lid
+    .list [.str n, ofBool L.dirty, ofBool L.lib, encGlyphs L]
+
+def encFlags (st : PState) : SExp :=
+  tagged "flags" [ofBool st.dirty, ofBool st.lsDirty,
+    .list (st.parts.filter (fun p => p.1 ≠ "lib") |>.map fun p => ofBool p.2.dirty),
+    ofBool st.images.dirty, ofBool st.data.dirty,
+    .list (st.ls.order.map (encLayerF st))]
+
+/-! ### parsing -/
 
 def parseFiles (xs : List SExp) : Option (List (String × Nat)) :=
   xs.mapM fun x => match x with
     | .list [n, b] => do some ((← asStr? n), (← asNat? b))
     | _ => none
 
-def savePart (sa : Bool) (p : String × Parts.Part) : String × Parts.Part :=
-  if p.1 = "kerning" ∨ p.1 = "features" then (p.1, Parts.saveIfDirty sa p.2) else (p.1, Parts.saveAlways p.2)
+def parseKind : SExp → Option Kind
+  | .atom "contour" => some .contour
+  | .atom "component" => some .component
+  | .atom "anchor" => some .anchor
+  | .atom "guideline" => some .guideline
+  | _ => none
+
+def parseShape : SExp → Option Shape
+  | .list [c, k, a, g, i] => do
+    some { contours := ← asNat? c, bases := ← asListOf? asStr? k, anchors := ← asNat? a, guidelines := ← asNat? g,
+           image := ← asOpt? asStr? i }
+  | _ => none
+
+def parsePrim : SExp → Option Prim
+  | .atom "touch" => some .touch
+  | .list [.atom "insert", k, i, b] => do some (.insert (← parseKind k) (← asNat? i) (← asBool? b))
+  | .list [.atom "append", k, b] => do some (.append (← parseKind k) (← asBool? b))
+  | .list [.atom "clear", k] => do some (.clear (← parseKind k))
+  | .list [.atom "edit", k, i] => do some (.edit (← parseKind k) (← asNat? i))
+  | .list [.atom "editall", k] => do some (.editAll (← parseKind k))
+  | .atom "imgget" => some .imageGet
+  | .list [.atom "imgedit", fn] => do some (.imageEdit (← asOpt? asStr? fn))
+  | .atom "imgclear" => some .imageClear
+  | .atom "libedit" => some .libEdit
+  | _ => none
+
+def parseGlyphs (x : SExp) : Option (List (Nat × List (String × Shape))) :=
+  asListOf? (fun l => match l with
+    | .list [lid, gs] => do
+      let gs ← asListOf? (fun g => match g with
+        | .list [gn, sh] => do some ((← asStr? gn), (← parseShape sh))
+        | _ => none) gs
+      some ((← asNat? lid), gs)
+    | _ => none) x
+
+/-- the operation a line stands for, and which component's state the answer shows -/
+inductive Show where
+  | files (images : Bool) | part (w : String) | layers | status | disk
+
+def parseOp : SExp → Option (Op × Show)
+  | .list [.atom "noop"] => none
+  | .list [.atom "fget", .atom w, n] => do some (.fileGet (w = "images") (← asStr? n), .files (w = "images"))
+  | .list [.atom "fset", .atom w, n, b] => do some (.fileSet (w = "images") (← asStr? n) (← asNat? b), .files (w = "images"))
+  | .list [.atom "fdel", .atom w, n] => do some (.fileDel (w = "images") (← asStr? n), .files (w = "images"))
+  | .list [.atom "ptouch", .atom w] => some (.partGet w, .part w)
+  | .list [.atom "pset", .atom w, b] => do some (.partSet w (← asNat? b), .part w)
+  | .list [.atom "pquiet", .atom w, b] => do some (.partQuiet w (← asNat? b), .part w)
+  | .list [.atom "lnew", n] => do some (.layerNew (← asStr? n), .layers)
+  | .list [.atom "ldel", n] => do some (.layerDel (← asStr? n), .layers)
+  | .list [.atom "lrename", o, n] => do some (.layerRename (← asStr? o) (← asStr? n), .layers)
+  | .list [.atom "ldefault", n] => do some (.layerDefault (← asStr? n), .layers)
+  | .list [.atom "lorder", o] => do some (.layerOrder (← asListOf? asStr? o), .layers)
+  | .list [.atom "ltouch", ln] => do some (.layerTouch (← asStr? ln), .status)
+  | .list [.atom "llibedit", ln] => do some (.layerLibEdit (← asStr? ln), .status)
+  | .list [.atom "gget", ln, gn] => do some (.glyphGet (← asStr? ln) (← asStr? gn), .status)
+  | .list [.atom "gnew", ln, gn] => do some (.glyphNew (← asStr? ln) (← asStr? gn), .status)
+  | .list [.atom "ginsert", ln, gn, ps, bs] => do
+    some (.glyphInsert (← asStr? ln) (← asStr? gn) (← asListOf? parsePrim ps) (← asListOf? asStr? bs), .status)
+  | .list [.atom "gdel", ln, gn] => do some (.glyphDel (← asStr? ln) (← asStr? gn), .status)
+  | .list [.atom "grename", ln, o, n] => do some (.glyphRename (← asStr? ln) (← asStr? o) (← asStr? n), .status)
+  | .list [.atom "gedit", ln, gn, ps, bs] => do
+    some (.glyphEdit (← asStr? ln) (← asStr? gn) (← asListOf? parsePrim ps) (← asListOf? asStr? bs), .status)
+  | .list [.atom "save", .atom mode] => some (.save (mode = "as"), .disk)
+  | _ => none
+
+def showOk (st : PState) : Show → SExp
+  | .files true => .list [.atom "ok", encFiles st.images]
+  | .files false => .list [.atom "ok", encFiles st.data]
+  | .part w => match AL.get? st.parts w with
+    | some p => .list [.atom "ok", encPart p]
+    | none => .atom "bad-op"
+  | .layers => .list [.atom "ok", encLayers st.ls]
+  | .status => .atom "ok"
+  | .disk => .list [.atom "ok", encDisk st]
+
+def showErr (st : PState) (e : SubFlags.Err) : Show → SExp
+  | .files true => .list [errOf e, encFiles st.images]
+  | .files false => .list [errOf e, encFiles st.data]
+  | .part _ => .atom "bad-op"
+  | .layers => .list [errOf e, encLayers st.ls]
+  | .status => errOf e
+  | .disk => .list [errOf e]
 
 partial def driverStep (st : PState) (line : SExp) : PState × SExp :=
   match line with
   | .list [.atom "quiet", op] => ((driverStep st op).1, .atom "ok")
-  | .list [.atom "initmem"] => (newFont, .atom "ok")
-  | .list [.atom "init", .list imgs, .list dats, .list ps, .list layers, defLid, defName] =>
-    match parseFiles imgs, parseFiles dats, parseFiles ps, parseFiles layers, asNat? defLid, asStr? defName with
-    | some i, some d, some p, some l, some dl, some dn =>
-      ({ images := FileSet.opened i, data := FileSet.opened d,
-         parts := p.map (fun x => (x.1, { disk := x.2 })),
-         ls := LayerSet.opened l dl dn }, .atom "ok")
-    | _, _, _, _, _, _ => (st, .atom "bad-op")
-  | .list [.atom "noop"] => (st, .atom "ok")
-  | .list [.atom "fget", .atom w, n] =>
-    match asStr? n with
+  | .list [.atom "initmem"] => (SubFlags.newFont, .atom "ok")
+  | .list [.atom "init", .list imgs, .list dats, .list ps, .list layers, defLid, defName, glyphs] =>
+    match parseFiles imgs, parseFiles dats, parseFiles ps, parseFiles layers, asNat? defLid, asStr? defName,
+          parseGlyphs glyphs with
+    | some i, some d, some p, some l, some dl, some dn, some g => (SubFlags.opened i d p l dl dn g, .atom "ok")
+    | _, _, _, _, _, _, _ => (st, .atom "bad-op")
+  | .list [.atom "noop"] => (st, tagged "out" [.atom "ok", encFlags st])
+  | _ =>
+    match parseOp line with
     | none => (st, .atom "bad-op")
-    | some n =>
-      if w = "images" then let (s, o) := fileOp true st.images (.get n); ({ st with images := s }, o)
-      else let (s, o) := fileOp false st.data (.get n); ({ st with data := s }, o)
-  | .list [.atom "fset", .atom w, n, b] =>
-    match asStr? n, asNat? b with
-    | some n, some b =>
-      if w = "images" then let (s, o) := fileOp true st.images (.set n b); ({ st with images := s }, o)
-      else let (s, o) := fileOp false st.data (.set n b); ({ st with data := s }, o)
-    | _, _ => (st, .atom "bad-op")
-  | .list [.atom "fdel", .atom w, n] =>
-    match asStr? n with
-    | none => (st, .atom "bad-op")
-    | some n =>
-      if w = "images" then let (s, o) := fileOp true st.images (.del n); ({ st with images := s }, o)
-      else let (s, o) := fileOp false st.data (.del n); ({ st with data := s }, o)
-  | .list [.atom "ptouch", .atom w] =>
-    match AL.get? st.parts w with
-    | none => (st, .atom "bad-op")
-    | some p => let p' := (Parts.get p).1; ({ st with parts := AL.set st.parts w p' }, .list [.atom "ok", encPart p'])
-  | .list [.atom "pset", .atom w, b] =>
-    match AL.get? st.parts w, asNat? b with
-    | some p, some b => let p' := Parts.set p b; ({ st with parts := AL.set st.parts w p' }, .list [.atom "ok", encPart p'])
-    | _, _ => (st, .atom "bad-op")
-  | .list [.atom "pquiet", .atom w, b] =>
-    match AL.get? st.parts w, asNat? b with
-    | some p, some b => let p' := Parts.setQuiet p b; ({ st with parts := AL.set st.parts w p' }, .list [.atom "ok", encPart p'])
-    | _, _ => (st, .atom "bad-op")
-  | .list [.atom "lnew", n] => match asStr? n with
-    | some n => layerOp st (.newLayer n)
-    | none => (st, .atom "bad-op")
-  | .list [.atom "ldel", n] => match asStr? n with
-    | some n => layerOp st (.delLayer n)
-    | none => (st, .atom "bad-op")
-  | .list [.atom "lrename", o, n] => match asStr? o, asStr? n with
-    | some o, some n => layerOp st (.rename o n)
-    | _, _ => (st, .atom "bad-op")
-  | .list [.atom "ldefault", n] => match asStr? n with
-    | some n => layerOp st (.setDefault n)
-    | none => (st, .atom "bad-op")
-  | .list [.atom "lorder", o] => match asListOf? asStr? o with
-    | some o => layerOp st (.setOrder o)
-    | none => (st, .atom "bad-op")
-  | .list [.atom "save", .atom mode] =>
-    let sa := mode = "as"
-    let lsr := if sa then LayerSet.saveAs st.ls else LayerSet.saveInPlace st.ls
-    match lsr with
-    | .error e => (st, .list [layerErr e])
-    | .ok ls' =>
-      let st' : PState :=
-        { images := if sa then FileSet.saveAs st.images [] else FileSet.saveInPlace st.images
-          data := if sa then FileSet.saveAs st.data [] else FileSet.saveInPlace st.data
-          parts := st.parts.map (savePart sa)
-          ls := ls' }
-      (st', .list [.atom "ok", encDisk st'])
-  | _ => (st, .atom "bad-op")
+    | some (op, sh) =>
+      match SubFlags.step st op with
+      | .ok st' => (st', tagged "out" [showOk st' sh, encFlags st'])
+      | .error e => (st, tagged "out" [showErr st e sh, encFlags st])
 
 end Persist
 end DefconModel
